@@ -21,16 +21,44 @@ def _pass(seed, count, label):
                                 known_matcher=vcheck.known_by_hyp(chk, HYP), view=vcheck.rt_view(PID))
     return p
 
+import re
+TRI = re.compile(r'\((\w+) "([01TF?]*)" "([01TF?]*)"\)')
+
+def strict_oracle(req, impl_reply, second):
+    """compiled validators, strict mode: for a value that is a member under the exact-scalar reading (e0 = 1) the strict
+    verdict must be e1 (declared properties only, at every depth, counting all members of an intersection)"""
+    if not impl_reply.startswith("(bits"):
+        return None
+    ib, sb = TRI.findall(impl_reply), TRI.findall(second.split("(hyp-failed")[0])
+    tags, diffs = set(), []
+    for (n1, d, s), (n2, e0, e1) in zip(ib, sb):
+        for k in range(min(len(s), len(e1))):
+            # judged: accepted in default mode, a member under the exact-scalar reading too, reference defined
+            if d[k] == "1" and e0[k] == "1" and e1[k] in "01" and s[k] != e1[k]:
+                tags.add("c11.rejects-declared" if e1[k] == "1" else "c11.accepts-undeclared")
+                diffs.append(f"{n1}#{k}:strict={s[k]},exact-member={e1[k]}")
+    return " ".join(sorted(tags)) + " (" + " ".join(diffs[:6]) + ")" if diffs else None
+
+def _pass_prog(seed, count, label):
+    def p(chk):
+        lines = chk.gen_js("prog-strict", seed, count, 8)
+        engine = lambda c, ls: vcheck.two_stage(c, ls, stage2_mode="prog-strict")[0]
+        base = vcheck.known_by_hyp(chk, HYP)
+        return vcheck.corr_pass(chk, "prog-strict", lines, label, engine=engine, oracle_filter=vcheck.tag_filter(TAGS), extra_oracle=strict_oracle,
+                                known_matcher=lambda req, ir, orc, hyps: base(req, ir, "(oracle fail " + " ".join(t for t in orc.split() if t.startswith("c11.")) + ")", hyps),
+                                nontrivial=lambda r, i: TRI.search(i) is not None and any(a != b for _, a, b in TRI.findall(i)))
+    return p
+
 def _corpus(chk):
     lines = vcheck.corpus_lines(PID)
     return vcheck.corr_pass(chk, "rt", lines, "rt(corpus)", engine="js", oracle_filter=vcheck.tag_filter(TAGS),
                             known_matcher=vcheck.known_by_hyp(chk, HYP), view=vcheck.rt_view(PID))
 
 def run(chk):
-    chk.build_js()
+    chk.build_rust(); chk.build_js()
     quick = chk.tier == "quick"
-    passes = [_corpus] + ([_pass(chk.seed * 100 + 7, 6000, "rt(random)")] if quick else
-                          [_pass(chk.seed * 100 + k, 25000, f"rt(random#{k})") for k in range(8)])
+    passes = [_corpus] + ([_pass(chk.seed * 100 + 7, 6000, "rt(random)"), _pass_prog(chk.seed * 100 + 8, 1200, "compiled-strict(random)")] if quick else
+                          [_pass(chk.seed * 100 + k, 25000, f"rt(random#{k})") for k in range(8)] + [_pass_prog(chk.seed * 100 + 50 + k, 8000, f"compiled-strict(random#{k})") for k in range(3)])
     return vcheck.generic_run(chk, MODULES, AUDIT, passes,
         [PID + ": Model/{JsVal,RT,Validate,Parse,Report}.lean model codegen-v2.ts:34-2430 and err.ts by hand; property names outside the modelled vocabulary "
          "on non-plain objects, lone surrogates, cyclic inputs, sparse arrays and getters are outside the model",
